@@ -22,6 +22,24 @@ pub struct Step {
     /// when the file of the slot is rewritten, it gets its previous modification time back
     #[serde(default)]
     pub keep_mtime: bool,
+    /// when > 0 (and there are records): the input holds exactly this many records, the generated ones repeated
+    /// in a cycle under distinct names (round record counts: 1000, 1024, 2000 ...; kept compact in the case)
+    #[serde(default)]
+    pub repeat_to: usize,
+}
+
+impl Step {
+    fn input_recs(&self) -> Vec<Rec> {
+        if self.repeat_to == 0 || self.recs.is_empty() {
+            return self.recs.clone();
+        }
+        (0..self.repeat_to)
+            .map(|i| {
+                let r = &self.recs[i % self.recs.len()];
+                Rec { id: format!("{}_{}", r.id, i), desc: r.desc.clone(), seq: r.seq.clone() }
+            })
+            .collect()
+    }
 }
 
 /// write `data` to `p` unless it already holds exactly that; optionally keep the modification time
@@ -48,7 +66,8 @@ pub struct Case {
 fn run_step(s: &Step, dir: &std::path::Path, tag: &str, out: &std::path::Path) -> Outcome {
     // the reference run is fresh in every respect: its own copies of the input files, its own output location
     let (input, altp) = if tag == "fresh" { (dir.join("in_fresh_location.fa"), dir.join("alt_fresh_location.fa")) } else { (dir.join(format!("in_slot{}.fa", s.slot)), dir.join(format!("alt_slot{}.fa", s.slot))) };
-    place(&input, &io::serialise(&s.recs, &Container::plain_fasta()), s.keep_mtime);
+    let recs = s.input_recs();
+    place(&input, &io::serialise(&recs, &Container::plain_fasta()), s.keep_mtime);
     place(&altp, &io::serialise(&s.alt, &Container::plain_fasta()), s.keep_mtime);
     if s.via_cli {
         let data = std::fs::read(&input).unwrap();
@@ -56,7 +75,7 @@ fn run_step(s: &Step, dir: &std::path::Path, tag: &str, out: &std::path::Path) -
     } else {
         let mut cmd = s.cmd.clone();
         if let Some(c) = s.chunks {
-            let counting = if cmd.alt { &s.alt } else { &s.recs };
+            let counting = if cmd.alt { &s.alt } else { &recs };
             cmd.lib_mem_gb = Some(mem_for_limit(target_limit(counting, c)));
         }
         run_via_lib(&cmd, &input, Some(&altp), out)
@@ -91,6 +110,7 @@ pub fn check_case(c: &Case) -> Verdict {
     let last = c.steps.last().unwrap();
     v.class(format!("last-{:?}-{}", last.cmd.sub, if last.via_cli { "cli" } else { "lib" }));
     v.class(format!("history-len-{}", c.steps.len()));
+    v.class_if(last.repeat_to >= 1000 && !last.recs.is_empty(), "last-run-reads-a-round-number-of-records(>=1000)");
     {
         let scale = match last.cmd.sub { Sub::Min => (if last.cmd.w == 0 { last.cmd.m } else { last.cmd.w }) as usize, Sub::Cgr => 1, _ => last.cmd.k as usize };
         let nothing = last.recs.iter().all(|r| {
@@ -189,7 +209,7 @@ fn step_strategy(tier: Tier, dir_based: bool) -> BoxedStrategy<Step> {
             // a fifth of the steps read (mostly) degenerate records: a run that has nothing to compute must still
             // replace what an earlier run left at the location
             let pd = RecParams { degenerate_w: 7, max_records: 6, ..p };
-            (prop_oneof![5 => gen::records(p), 2 => gen::records_related(p), 2 => gen::records(pd), 1 => Just(Vec::new())], gen::records(p), 0u8..=1, any::<bool>()).prop_map(move |(recs, alt, slot, keep_mtime)| Step { cmd: cmd.clone(), recs, alt, via_cli, chunks, slot, keep_mtime })
+            (prop_oneof![5 => gen::records(p), 2 => gen::records_related(p), 2 => gen::records(pd), 1 => Just(Vec::new())], gen::records(p), 0u8..=1, any::<bool>()).prop_map(move |(recs, alt, slot, keep_mtime)| Step { cmd: cmd.clone(), recs, alt, via_cli, chunks, slot, keep_mtime, repeat_to: 0 })
         })
         .boxed()
 }
@@ -201,7 +221,7 @@ impl Leg for Histories {
     fn strategy(tier: Tier) -> BoxedStrategy<Case> {
         any::<bool>()
             .prop_flat_map(move |dir_based| {
-                (proptest::collection::vec(step_strategy(tier, dir_based), 2..=3), 0u8..26).prop_map(|(mut steps, shape)| {
+                (proptest::collection::vec(step_strategy(tier, dir_based), 2..=3), 0u8..29, prop::sample::select(vec![1000usize, 1000, 2000, 1024, 256, 100, 64])).prop_map(|(mut steps, shape, round)| {
                     let n = steps.len();
                     match shape {
                         0..=2 => {
@@ -245,6 +265,22 @@ impl Leg for Histories {
                             }
                             l.alt = prev.alt.iter().map(|r| Rec { id: r.id.clone(), desc: r.desc.clone(), seq: crate::util::Bytes(r.seq.0.iter().rev().copied().collect()) }).collect();
                             steps[n - 1] = l;
+                        }
+                        26..=28 => {
+                            // round record counts: the last run reads exactly 1000 / 1024 / 2000 ... records, the run
+                            // before it (the same command for shape 26) 300 more, so that it leaves longer files
+                            let wide = |st: &Step| matches!(st.cmd.sub, Sub::Oligo | Sub::KCgr) && st.cmd.k > 5;
+                            if !wide(&steps[n - 1]) {
+                                if shape == 26 {
+                                    let mut p = steps[n - 1].clone();
+                                    p.slot = 1 - p.slot;
+                                    steps[n - 2] = p;
+                                }
+                                steps[n - 1].repeat_to = round;
+                                if !wide(&steps[n - 2]) {
+                                    steps[n - 2].repeat_to = round + 300;
+                                }
+                            }
                         }
                         _ => {}
                     }
